@@ -119,6 +119,9 @@ pub fn install_panic_hook() {
                     if let Ok(mut g) = LAST_EMU_THREAD_PANIC.lock() {
                         *g = format!("{} @ {}", msg, loc);
                     }
+                    // (or the harness called into the emulator without a guard: then this thread unwinds and the
+                    // check ends with exit 2 - said here so that it is never silent)
+                    eprintln!("EMULATOR PANIC outside a guarded call (thread {:?}): {} @ {}", std::thread::current().name().unwrap_or("unnamed"), msg, loc);
                 } else {
                     // not inside a guarded call into the emulator: the machinery itself panicked - never silent
                     eprintln!("HARNESS ERROR: the check's own code panicked: {} @ {}", msg, loc);
